@@ -1,19 +1,30 @@
 import Desert.Lemmas.RoundTripFull
 import Desert.Lemmas.Misc
+import Desert.Lemmas.TotalDec
 /-!
-# C05 — decoding untrusted bytes is total (partial)
+# C05 — decoding untrusted bytes is total
 
-Proved here: the region arithmetic of the context (the transcription of `read_u8`, `read_bytes`,
-`skip`, `push_region`, `pop_region`) can never be the source of a panic — no out-of-range index,
-no `usize` underflow, no `unwrap` on an empty region stack — for *every* decoder program and every
-input, unless the program itself is ill-formed in the abstract sense; the primitive reads are
-total for every requested length; cursors never leave their windows.
+Proved here, for *every* byte string:
+* `decode_never_panics`: for every environment passing the decidable check `envDecOKb` (named types
+  declared, transient fields have defaults, fields read with `read_optional_field` have `Option`
+  types — what the derive macro guarantees of any type that compiles) and every type expression
+  over it, the decoder — run through the faithful transcription of `DeserializationContext` *and*
+  through the abstract source — returns a value or an error. No `panic` node is reached, no region
+  pushed that escapes its window, no empty stack popped, no index out of range, no `usize`
+  underflow, and the fuel `|input| + 1` of the recursion is never exhausted: every nested record
+  reads its version byte first and chunk regions lie inside what is left after it, every
+  unknown-length loop reads a flag byte per turn (`Lemmas/Total.lean`, `Lemmas/TotalDec.lean`).
+  The model's functions are total Lean functions, so "never loops without consuming input" is part
+  of the same statement.
+* the region arithmetic of the context can never be the source of a panic by itself
+  (`context_never_panics_alone`, every program), primitive reads are total for every requested
+  length, cursors never leave their windows.
 
-Not proved (the claim is partial, DESIGN §5.C05): that the *decoder programs* of `Decode.lean`
-never reach an abstract panic (exhausted fuel, an unbalanced pop, a region that escapes its
-window, the `panic` nodes for ill-formed declarations); stack exhaustion, allocator behaviour and
-time are outside the model. These are covered by the correspondence families `raw`, `decl`, `hist`
-(every implementation panic must be predicted by the model; none is, on the current tree).
+Outside the model (correspondence and measurement only, DESIGN §5.C05): stack depth, allocator
+behaviour and time of the real code; chrono / bignum leaves; the three `BinaryInput`
+implementations other than the context (family `srcops`). On every run every implementation
+panic must be predicted by the model — by this theorem there is none to predict, so any
+implementation panic on the families `raw`, `decl`, `hist` is a violation.
 -/
 set_option linter.unusedVariables false
 
@@ -77,5 +88,29 @@ theorem valid_encodings_never_panic (env : Env) (henv : EnvWF env) (ty : Ty) (v 
     (WF_new _) (view_new _) rfl).1
   rw [this] at hw
   simp at hw
+
+/-- **decoding never panics**: any bytes, any decodable type, both interpreters -/
+theorem decode_never_panics (env : Env) (henv : envDecOKb env = true) (ty : Ty) (hty : tyOKb env ty = true) (b : Bytes) :
+    (∀ w, decodeTop env ty b ≠ .panic w) ∧ (∀ w, decodeAbs env ty b ≠ .panic w) := by
+  refine ⟨?_, decodeAbs_total env henv ty hty b⟩
+  intro w h
+  unfold decodeTop at h
+  obtain ⟨w', hw⟩ := context_never_panics_alone _ _ (Ctx.new_Inv b) w h
+  rw [absCtx_new] at hw
+  exact decodeAbs_total env henv ty hty b w' hw
+
+/-- the same from any well-formed position inside a stream, with any budget above the bytes left -/
+theorem decode_never_panics_frame (env : Env) (henv : envDecOKb env = true) (ty : Ty) (hty : tyOKb env ty = true)
+    (fuel : Nat) (s : AbsSrc) (hw : s.WF) (hm : s.rem < fuel) : ∀ w, runAbs (dec env fuel ty) s ≠ .panic w := by
+  intro w h
+  have := dec_total env henv fuel ty hty s hw hm
+  unfold Ok1 at this
+  rw [h] at this
+  exact this
+
+/-- non-vacuity: the repository's evolved `Point` is a decodable environment -/
+example : envDecOKb [("Point", .record ⟨"Point", [⟨"x", .prim (.int 4 true), .plain, some (.int 0)⟩,
+    ⟨"y", .prim (.int 4 true), .plain, none⟩, ⟨"_cached_str", .option (.prim .string), .transient, some .none⟩],
+    [.added "x", .removed "z"]⟩)] = true := by decide
 
 end C05
